@@ -110,6 +110,14 @@ SEGS = [_seg_walk, _seg_walk, _seg_zigzag, _seg_monotone, _seg_extremes, _seg_fl
 
 def gen_signal(rng, min_len=1, max_len=80):
     r = rng.random()
+    if max_len == 80 and rng.random() < 0.0007:
+        # very rarely a really long recording (block sizes, 16-bit counters): held levels everywhere
+        n_big = rng.choice([66000, 70000, 132000])
+        vals = [float(rng.randint(-9, 9)) for _ in range(n_big // 2)]
+        sig = []
+        for v in vals:
+            sig += [v] * rng.choice([1, 2, 2, 3])
+        return sig[:n_big]
     if max_len == 80 and rng.random() < 0.02:
         max_len = rng.choice([300, 1200, 2500])     # a few long signals per batch (deep stacks, many chunks)
         r = 0.99
@@ -149,13 +157,23 @@ def gen_signal(rng, min_len=1, max_len=80):
     elif r < 0.2:
         # number representation: decimal grids (equal values, equal ranges, but no exact binary/float32
         # representation), magnitudes beyond 2**24, strain-like tiny amplitudes
-        kind = rng.choice(["decimal", "decimal", "big", "tiny", "pa"])
+        kind = rng.choice(["decimal", "decimal", "big", "tiny", "pa", "ultra"])
         if kind == "decimal":
             sig = [round(x) * 0.1 for x in sig]
         elif kind == "big":
             sig = [float(2 ** 24 + round(x)) for x in sig] if rng.random() < 0.5 else [float(round(x)) * 100000001.0 for x in sig]
         elif kind == "tiny":
             sig = [x * 1e-3 / 7.0 for x in sig]
+        elif kind == "ultra":
+            # finite is finite: magnitudes near the ends of the double range, or an exponentially damped oscillation
+            # whose late cycles are hundreds of orders of magnitude smaller than its first ones
+            m = rng.choice(["small", "large", "damped"])
+            if m == "small":
+                sig = [x * 2.0 ** -600 for x in sig]
+            elif m == "large":
+                sig = [x * 2.0 ** 500 for x in sig]
+            else:
+                sig = [x * 2.0 ** (-12 * i) for i, x in enumerate(sig)][:70]
         else:
             sig = [round(x) * 1.0e5 + 0.3 for x in sig]
     elif r < 0.27 and len(sig) > 2:
@@ -188,7 +206,7 @@ def structure(sig):
     rev = set()
     kind_of_run = []
     for j, (v, a, b) in enumerate(runs):
-        is_rev = 0 < j < len(runs) - 1 and (v - runs[j - 1][0]) * (runs[j + 1][0] - v) < 0
+        is_rev = 0 < j < len(runs) - 1 and ((v > runs[j - 1][0] and runs[j + 1][0] < v) or (v < runs[j - 1][0] and runs[j + 1][0] > v))
         kind_of_run.append(is_rev)
         if is_rev:
             rev.add(a)
@@ -210,6 +228,13 @@ def gen_cuts(rng, sig):
     n = len(sig)
     if n < 2:
         return []
+    if n > 5000:
+        # a really long recording: a handful of big blocks, some borders next to powers of two
+        cuts = {rng.randint(1, n - 1) for _ in range(rng.randint(1, 4))}
+        for base in (1 << 15, 1 << 16, 1 << 17):
+            if base < n - 2 and rng.random() < 0.5:
+                cuts.add(base + rng.choice([-1, 0, 1, 2]))
+        return sorted(cuts)
     mode = rng.choice(["ones", "rand", "rand", "adv", "adv", "adv", "few", "few"])
     if mode == "ones":
         return list(range(1, n))
@@ -240,7 +265,8 @@ def _narrow_dtype(sig, kind):
     """A dtype that represents every sample of the whole signal exactly, or None."""
     arr = np.asarray(sig, dtype=np.float64)
     if kind == "f32":
-        return np.float32 if np.array_equal(arr.astype(np.float32).astype(np.float64), arr) else None
+        with np.errstate(over="ignore", under="ignore"):
+            return np.float32 if np.array_equal(arr.astype(np.float32).astype(np.float64), arr) else None
     if not np.array_equal(np.round(arr), arr):
         return None
     lo, hi = float(arr.min()), float(arr.max())
@@ -729,7 +755,7 @@ def generate_c03(rng, tier):
     elif kind == "affine":
         if rng.random() < 0.3:
             # very small / very large exact scales (strain-like or Pa-like units): steps far below 1e-8 or above 1e8
-            tw["a"] = 2.0 ** rng.choice([-27, -30, -40, 30, 40])
+            tw["a"] = 2.0 ** rng.choice([-27, -30, -40, 30, 40, -600, 500])
             tw["b"] = tw["a"] * rng.randint(-64, 64)
         else:
             tw["a"] = 2.0 ** rng.randint(-3, 5)
